@@ -254,7 +254,9 @@ def brokerVerdicts (pre : Server) (ws : List String) (core flags : String) : Lis
             let hook := assocGet pre.pubHook topic
             let pendingQ2 := match flGet c id with | some m => m.type == 5 | none => false
             let sig07 := if q > pre.caps.maximumQos then "F07c" else if q == 1 && pendingQ2 then "F07d" else "-"
-            let c07 := if hook.isSome then [] else if q == 1 then need "PUBACK" sig07 else if q == 2 then need "PUBREC" sig07 else []
+            -- a hook's plain error code is answered to an MQTT 5 client with the acknowledgement of the publish's QoS
+            let hookSilent := hook.isSome && !(hook == some "err" && c.ver == 5)
+            let c07 := if hookSilent then [] else if q == 1 then need "PUBACK" sig07 else if q == 2 then need "PUBREC" sig07 else []
             let ackOK := if min q pre.caps.maximumQos == 0 then true else
               pks.any fun p => (p.startsWith "PUBACK:" || p.startsWith "PUBREC:") &&
                 (match fieldOf p "rc" with | some rc => rc < "80" | none => false)
